@@ -1,5 +1,7 @@
 import SnootyVerif.Proofs.EventWalk
 import SnootyVerif.Gen.Guards
+import SnootyVerif.Gen.Handlers
+import SnootyVerif.Proofs.Handlers
 import SnootyVerif.Properties.C06
 import SnootyVerif.Properties.C07
 import SnootyVerif.Properties.C10
@@ -69,6 +71,45 @@ def justified : List (String × String) :=
 protected by a membership test / early exit / try-except, or is one of the justified reads: no
 handler can raise KeyError on a directive whose option the author left out. -/
 theorem guards_justified : ∀ p ∈ SnootyVerif.Gen.unguardedOptionReads, p ∈ justified := by decide
+
+/-! ## handler kernels that index into lists -/
+
+section
+open SnootyVerif.Handlers
+
+/-- `TabsSelectorHandler.scan_for_pattern` never raises IndexError and reports the nesting exactly when the target pattern
+is a subsequence of the open directives - for every stack of directive names and every non-empty pattern. -/
+theorem scan_for_pattern_total_and_exact (pattern stack : List String) (h : pattern ≠ []) :
+    ∃ b, scanForPattern pattern stack = .ok b ∧ (b = true ↔ pattern.Sublist stack) := by
+  unfold scanForPattern
+  cases stack with
+  | nil =>
+    refine ⟨false, by simp, ?_⟩
+    constructor
+    · intro hb; cases hb
+    · intro hs; exact absurd (List.sublist_nil.mp hs) h
+  | cons a t =>
+    have hl : 0 < pattern.length := List.length_pos_iff.mpr h
+    simpa using scanLoop_spec pattern (a :: t) 0 hl
+
+/-- the pattern the code uses (translated from an instance on every run) is non-empty -/
+theorem tabs_pattern_nonempty : Gen.tabsTargetPattern ≠ [] := by decide
+
+theorem tabs_scan_total (stack : List String) :
+    ∃ b, scanForPattern Gen.tabsTargetPattern stack = .ok b ∧ (b = true ↔ Gen.tabsTargetPattern.Sublist stack) :=
+  scan_for_pattern_total_and_exact _ _ tabs_pattern_nonempty
+
+example : (scanForPattern ["tabs", "tabs", "procedure"] ["tabs", "tab", "tabs", "tab", "procedure", "step", "procedure"]).toOption = some true := by decide
+example : (scanForPattern ["tabs", "tabs", "procedure"] ["tabs", "tab", "procedure"]).toOption = some false := by decide
+
+/-- the seeded change C02-6 (completeness test hoisted out of the loop) on the model: IndexError on exactly the stack
+its demonstration uses -/
+theorem scan_no_stop_refuted :
+    (scanLoopNoStop ["tabs", "tabs", "procedure"] 0 ["tabs", "tab", "tabs", "tab", "procedure", "step", "procedure"]).toOption = none
+    ∧ (scanLoopNoStop ["tabs", "tabs", "procedure"] 0 ["tabs", "tab", "tabs", "tab", "procedure"]).toOption = some true := by
+  decide
+
+end
 
 /-- the three unbounded recursions of the postprocessor terminate (re-exported) -/
 theorem include_pass_terminates (pages : SnootyVerif.Include.Pages) (page : String) :
